@@ -108,9 +108,11 @@ func (p *PX) funcValueCallee(x *ssa.Call, fr *pxFrame, st *pxState) (*ssa.Functi
 	}
 	switch v := ft.V.(type) {
 	case *ssa.Function:
-		// (a library function is not stepped into; the call is recorded under its name)
+		// (a library function is not stepped into; the call is recorded under its name);
+		// a method expression kept as a value (`table[k] = (*T).M`) is a thunk with M's
+		// own operands: the call is the call of M
 		if len(v.FreeVars) == 0 {
-			return v, nil, nil
+			return p.w.unthunk(v), nil, nil
 		}
 	case *ssa.MakeClosure:
 		c := p.closures[ft.key]
